@@ -76,3 +76,11 @@ package rlp
 //@ func Encode
 //@   trusted
 //@   modifies nothing
+
+//@ # ASSUMED: the encoder is a pure function of the value as it is at the call (its content is the view rlpOf); it touches
+//@ # nothing the callers can see (the encode buffer pool is internal)
+//@ ghost rlpOf(v interface{}) string
+//@ func EncodeToBytes
+//@   trusted
+//@   ensures result1 == nil ==> bytestr(result0) == rlpOf(val) && fresh(result0)
+//@   modifies nothing
